@@ -23,7 +23,7 @@ Fixpoint find_alloc (tr : trace) (v : Z) : option event :=
 
 Definition rw_ext (tr : trace) (f : N) (vs : list Z) : option Z :=
   let h := fold_left (fun a v => (a * 31 + v) mod 65521) vs (Z.of_N f + 7 * Z.of_nat (length tr)) in
-  if h mod 29 =? 0 then None else Some (h mod 41 - 20).
+  if h mod 29 =? 0 then None else Some (h mod 7).
 
 Definition rw_prim (tr : trace) (p : prim) (v : Z) : Z :=
   match p with
@@ -124,14 +124,25 @@ Definition tie_cpe (before after : program) : list N :=
    N.of_nat (length (filter (fun s => match const_of s with Some _ => true | None => false end) (concat dr)));
    N.of_nat (length (filter (fun f => match gget gs (f_name f) with Some None => true | _ => false end) before))].
 
-(* instances: every function whose parameters all survive, on 2 argument vectors (entry points take none) *)
+(* instances (of ProofsConstParam.cp_crel): every function of P0 none of whose parameter states is Referenced (a state
+   that a function with a call site never keeps), on 2 argument vectors that carry the constants the analysis found;
+   the rewritten function gets the surviving arguments *)
+Definition is_referenced (s : pstate) : bool := match s with Referenced => true | _ => false end.
+
+Definition cpe_args (ps : list pstate) (pool : list Z) : list Z :=
+  map (fun sv => match const_of (fst sv) with Some c => eval refw [] c | None => snd sv end) (combine ps pool).
+
 Definition inst_cpe (fuel : nat) (P0 P1 : program) : list N :=
   let gs := collect_all false P0 in
   let rs := flat_map (fun f =>
-                        if params_kept gs (f_name f)
-                        then map (fun j => let a := arg_vector (length (f_params f)) j in
-                                           sem_case fuel P0 P1 (f_name f) a a) (seq 0 2)
-                        else []) P0 in
+                        match gget gs (f_name f) with
+                        | Some (Some ps) =>
+                            if existsb is_referenced ps then []
+                            else map (fun j => let a := cpe_args ps (arg_vector (length ps) j) in
+                                               sem_case fuel P0 P1 (f_name f) a (filter_keep (map is_unopt ps) a)) (seq 0 2)
+                        | _ => map (fun j => let a := arg_vector (length (f_params f)) j in
+                                             sem_case fuel P0 P1 (f_name f) a a) (seq 0 2)
+                        end) P0 in
   [count 0 rs; count 1 rs + count 3 rs; count 2 rs; count 3 rs]%N.
 
 (* one real program: P0 -cpe-> P1 -tailrec-> P2; ks = the first temporary of every function of P1 *)
